@@ -286,13 +286,14 @@ fn doc_vectors(report: &Report) {
 pub fn run(report: &Report) {
     use crate::models::*;
     let q = report.tier == Tier::Quick;
-    report.bound("every node of the ANS history walk (encode and decode ops) and of the range-coder sequence walk, up to the listed depths; 15 documentation vectors");
+    report.bound("every node of the ANS history walk (encode and decode ops) and of the range-coder sequence walk, up to the listed depths; 15 documentation vectors; through the Python front end: every message of length <= 4 (thorough 6) over 15 models x {ANS, range} compared word for word with the Rust front end, and all documentation-example functions of tests/python");
     report.assume("reference sealing rule for State wider than two Words is the generalised rule of notes/range-coding.md step 4 (zero words until the interval is pinned); for State == two Words it is asserted identical to the classic one-or-two-word rule on every node");
-    report.assume("the Python front end is not built offline; the Rust functions it wraps are exercised with the vectors of tests/python/test_docexamples.py that are expressible in Rust");
+    report.assume("the Python front end is built from the same working tree by the check driver (pyo3 bindings, offline); if that build is not possible the Python part is listed under caps_hit as not covered");
     for n in ["ans_nodes_with_flushed_words", "ans_nodes_after_decode", "range_nodes_inverted", "range_seals_with_zero_word", "documentation_vectors_checked"] {
         report.require(n);
     }
     doc_vectors(report);
+    super::pyfront::c06_part(report, if q { 4 } else { 6 });
     let empty: Vec<Vec<u128>> = vec![vec![]];
     explore_ans::<U8U16>(report, &empty, &small_alphabet::<U8U16>(), if q { 6 } else { 7 }, "mixed-precision-14");
     explore_ans::<U8U32>(report, &empty, &small_alphabet::<U8U32>(), if q { 6 } else { 7 }, "mixed-precision-14");
